@@ -501,6 +501,7 @@ type ClosureSpec struct {
 
 type SpecDB struct {
 	Closures []*ClosureSpec
+	ChanNonNil map[string][]string // "Type.field" -> tags: values travelling on this channel are non-nil
 	Funcs   map[string]*FuncSpec // key: pkg + "." + Key
 	SpecFns map[string]*SpecFn
 	Axioms  []*Axiom
@@ -530,7 +531,7 @@ var clauseKeywords = map[string]bool{
 	"property": true, "safety": true, "attr": true, "let": true, "requires": true, "ensures": true,
 	"modifies": true, "loop": true, "invariant": true, "decreases": true, "ghost": true, "step": true,
 	"package": true, "guarded_by": true, "params": true, "results": true, "init": true, "assert": true,
-	"emits": true, "callpre": true, "maintains": true, "ghostvar": true, "trace": true, "closure": true, "bind": true,
+	"emits": true, "callpre": true, "maintains": true, "ghostvar": true, "trace": true, "closure": true, "bind": true, "chan_nonnil": true,
 }
 
 // LoadSpecFile reads //@ lines (or all lines for .spec files).
@@ -653,6 +654,12 @@ func (db *SpecDB) LoadSpecFile(path string, trusted bool) error {
 				return fail("trace $name")
 			}
 			db.Traces[strings.TrimSpace(text)] = true
+		case "chan_nonnil":
+			tags, rest := parseTags(text)
+			if db.ChanNonNil == nil {
+				db.ChanNonNil = map[string][]string{}
+			}
+			db.ChanNonNil[strings.TrimSpace(rest)] = tags
 		case "closure":
 			db.Closures = append(db.Closures, &ClosureSpec{Text: text, File: path, Line: c.line})
 		case "ghostvar":
